@@ -732,9 +732,10 @@ def field_class(path):
     return m.group(1) if m else path[:20]
 
 
-def compare_tail(P, Q, pre_p, pre_q, restrict=None, first_further_only=False):
+def compare_tail(P, Q, pre_p, pre_q, restrict=None, include_sync=True):
     """P: program run, Q: reference run (control or fresh).  restrict: None = everything, else
-    dict(vars_x=set, vars_all=set, biases=set, full=False) for the memoryless comparison.
+    dict(vars_all=set (actual value and active flag compared), vars_x=set (every field compared), biases=set,
+    full=bool (per-atom forces, energies and trajectory data lines compared), drop_ft=bool).
     Returns list of (class, text, maxrel) differences (at most one per class)."""
     diffs = []
 
@@ -746,11 +747,23 @@ def compare_tail(P, Q, pre_p, pre_q, restrict=None, first_further_only=False):
         add("object_lists", "variables %s / biases %s vs %s / %s" % (P["vars"], P["biases"], Q["vars"], Q["biases"]))
         return diffs
     steps = list(zip(P["further"], Q["further"]))
-    if restrict is None:
+    if include_sync:
         steps = [(P["sync"], Q["sync"])] + steps
     inactive = set()
+    nodata = set()
+    mts_seen = set()
     for ep, eq in steps:
         tag = "it%d" % ep.get("it", -1)
+        # a variable with timeStepFactor n holds, between its own steps, the value of its last step: that value may stem
+        # from a moment when a bias deleted since then kept it awake.  Compare from its first own step of the tail on.
+        mts_wait = set()
+        for n in P["vars"]:
+            tsf = VARS.get(n, {}).get("tsf", 1)
+            if tsf > 1 and n not in mts_seen:
+                if isinstance(ep.get("it"), int) and ep["it"] % tsf == 0:
+                    mts_seen.add(n)
+                else:
+                    mts_wait.add(n)
         if ep.get("it") != eq.get("it"):
             add("step_number", "%s vs %s" % (ep.get("it"), eq.get("it")))
             break
@@ -762,12 +775,14 @@ def compare_tail(P, Q, pre_p, pre_q, restrict=None, first_further_only=False):
             if cp is None or cq is None:
                 add("cv.missing", "%s: variable %s missing in step event" % (tag, n))
                 continue
+            if n in mts_wait:
+                continue
             if cp.get("on") != cq.get("on"):
                 inactive.add(n)
                 add("colvar_inactive" if cp.get("on") == 0 else "colvar_active_flag",
                     "%s: variable %s active flag %s vs %s (value %s vs %s)" % (tag, n, cp.get("on"), cq.get("on"), cp.get("xa"), cq.get("xa")))
         for n in P["vars"]:
-            if n in inactive:
+            if n in inactive or n in mts_wait:
                 continue
             cp, cq = ep["cv"].get(n), eq["cv"].get(n)
             if cp is None or cq is None:
@@ -775,9 +790,12 @@ def compare_tail(P, Q, pre_p, pre_q, restrict=None, first_further_only=False):
             if restrict is not None:
                 if n not in restrict["vars_all"]:
                     continue
-                keys = ["xa", "on"] + (["x", "v", "ft", "fa"] if n in restrict["vars_x"] else [])
-                cp = {k: cp[k] for k in keys if k in cp}
-                cq = {k: cq[k] for k in keys if k in cq}
+                if n not in restrict["vars_x"]:
+                    cp = {k: cp[k] for k in ("xa", "on") if k in cp}
+                    cq = {k: cq[k] for k in ("xa", "on") if k in cq}
+                elif restrict.get("drop_ft"):
+                    cp = {k: w for k, w in cp.items() if k != "ft"}
+                    cq = {k: w for k, w in cq.items() if k != "ft"}
             d, rel = cmp_exact(cp, cq, "cv/" + n)
             if d:
                 add(field_class(d.split(":")[0]), "%s: %s" % (tag, d), rel)
@@ -788,12 +806,14 @@ def compare_tail(P, Q, pre_p, pre_q, restrict=None, first_further_only=False):
             if bp is None or bq is None:
                 add("bias.missing", "%s: bias %s missing in step event" % (tag, n))
                 continue
-            if inactive and any(v in inactive for v in (bias_vars(n) or [])):
+            if any(v in inactive or v in mts_wait for v in (bias_vars(n) or [])):
                 continue
             d, rel = cmp_exact(bp, bq, "bias/" + n)
             if d:
                 add(field_class(d.split(":")[0]), "%s: %s" % (tag, d), rel)
-        if (restrict is None or restrict.get("full")) and not inactive:
+        if mts_wait:
+            nodata.add(ep.get("it"))
+        if (restrict is None or restrict.get("full")) and not inactive and not mts_wait:
             for f in ("en", "af", "rc", "err"):
                 d, rel = cmp_exact(ep.get(f), eq.get(f), f)
                 if d:
@@ -814,7 +834,7 @@ def compare_tail(P, Q, pre_p, pre_q, restrict=None, first_further_only=False):
                 continue
             if dp[st][0] != dq[st][0]:
                 add("traj_label", "step %s: labels %s vs %s" % (st, dp[st][0], dq[st][0]))
-            elif (restrict is None or restrict.get("full")) and not inactive and dp[st][1] != dq[st][1]:
+            elif (restrict is None or restrict.get("full")) and not inactive and st not in nodata and dp[st][1] != dq[st][1]:
                 add("traj_data", "step %s: %s vs %s" % (st, dp[st][1], dq[st][1]))
     return diffs
 
@@ -850,7 +870,15 @@ def check_deps(res, where, label, rep, files):
     for v in rep.get("viol", []):
         res["viol"].append(("deps:" + norm_viol(v), "%s after %s: %s" % (where, label, v), files))
     for v in rep.get("refdiff", []):
-        res["refdiff"].append((refdiff_class(v), "%s after %s: %s" % (where, label, v), files))
+        cls = refdiff_class(v)
+        if cls.endswith(":above"):
+            # more references than dependents: the feature stays pinned; nothing the property speaks about
+            res["pinned"][cls] = res["pinned"].get(cls, 0) + 1
+        else:
+            # fewer references than enabled dependents (or off while needed): it can be switched off under them
+            res["viol"].append(("refcount:" + cls, "%s after %s: %s" % (where, label, v), files))
+    if rep.get("viol") or any(not refdiff_class(v).endswith(":above") for v in rep.get("refdiff", [])):
+        res["graph_bad"] = True
 
 
 def run_program(job):
@@ -859,7 +887,7 @@ def run_program(job):
     wd = job["wd"]
     tfmode = job["tfmode"]
     res = dict(idx=job["idx"], prog=prog_str(prog), viol=[], refdiff=[], inconc=[], ndeps=0, objects=0, features=0,
-               changed=False, counters={}, kinds=set(), wd=wd, tol_used=0, removal=removal_kinds(prog))
+               changed=False, counters={}, kinds=set(), wd=wd, tol_used=0, removal=removal_kinds(prog), pinned={}, graph_bad=False)
 
     def bump(k, n=1):
         res["counters"][k] = res["counters"].get(k, 0) + n
@@ -892,7 +920,8 @@ def run_program(job):
     # ---- per-command oracles: deps, object lists, active atoms -------------------------------------
     before_v, before_b = [], []
     created = {}      # name -> index of the command that created the live object
-    creation_cmds = []  # (index, name) of creations that survive (filled at the end)
+    deaths = []       # (name, index of the creating command, index of the command after which it was gone)
+    step_cmds = []    # indices of the step commands
     stepcount = 0
     unexpected = []
     for i, (cmd, o) in enumerate(zip(prog, P["cmds"])):
@@ -942,6 +971,7 @@ def run_program(job):
             res["changed"] = True
         for n in list(created):
             if n not in o["vars"] and n not in o["biases"]:
+                deaths.append((n, created[n], i))
                 del created[n]
         if op in ("addvar", "addbias") and not rejected:
             n = cmd[1] if op == "addvar" else bias_name(cmd[1], cmd[2])
@@ -949,6 +979,7 @@ def run_program(job):
         before_v, before_b = o["vars"], o["biases"]
         if op == "step":
             stepcount += 1
+            step_cmds.append(i)
             st = main
             if st is not None and (st.get("rc") or st.get("err")):
                 bump("steps_with_error_bits")
@@ -991,6 +1022,12 @@ def run_program(job):
         else:
             bump("invalid_combinations_confirmed")
 
+    if res["graph_bad"]:
+        # root cause first: a broken dependency graph makes every later step fail; do not pile identity differences on it
+        bump("identity_oracles_skipped_after_graph_violation")
+        res["nsurv"] = len(survivors_v) + len(survivors_b)
+        return res
+
     # ---- control program: the objects that do not survive were never created -----------------------
     keep = set(created.values())
     ctrl = []
@@ -999,6 +1036,21 @@ def run_program(job):
             ctrl.append(cmd)
     hist_b = [b for b in survivors_b if not re.match(r"^b(%s)_" % "|".join(MEMORYLESS), b)]
     ext_v = [v for v in survivors_v if VARS.get(v, {}).get("ext")]
+    # Legitimate memory: the extended coordinate of a surviving variable is a dynamical degree of freedom; a bias that
+    # acted on it for at least one step before being deleted has moved it, exactly as it would have moved atoms.
+    tainted = set()
+    for (n, ci, di) in deaths:
+        for v in (bias_vars(n) or []):
+            if v in ext_v and created[v] < ci and any(ci < sidx < di for sidx in step_cmds):
+                tainted.add(v)
+    if tainted:
+        bump("programs_with_extended_coordinate_moved_by_a_deleted_bias")
+    if tfmode == "prev":
+        # previous-step total forces contain whatever Colvars applied at the previous step, deleted objects included
+        tainted.update(v for v in survivors_v if v == "vf")
+        for b in survivors_b:
+            if b.startswith("babf_"):
+                tainted.update(bias_vars(b) or [])
     if ctrl != prog:
         preC = os.path.join(wd, "C")
         rc_, evc, spC = run_scn(scenario(ctrl, preC, tfmode, names), wd, "C")
@@ -1016,13 +1068,49 @@ def run_program(job):
                 res["viol"].append(("control_object_set:" + res["removal"],
                                     "program [%s] ends with %s / %s, control [%s] with %s / %s" % (prog_str(prog), survivors_v, survivors_b, prog_str(ctrl), C["vars"], C["biases"]), files_c))
             else:
+                # steps of the program body: a surviving variable must be active exactly when it is in the control
+                psteps = [P["cmds"][i]["main"] for i in step_cmds]
+                csteps = [o["main"] for cmd, o in zip(ctrl, C["cmds"]) if cmd[0] == "step"]
+                slept = set()
+                for sidx, ep, ec in zip(step_cmds, psteps, csteps):
+                    if not ep or not ec:
+                        continue
+                    for v in survivors_v:
+                        if created[v] < sidx and v in ep.get("cv", {}) and v in ec.get("cv", {}):
+                            # a bias that is still attached in the program (to be deleted later) may legitimately keep the
+                            # variable awake at this step
+                            if any(v in (bias_vars(n) or []) and ci < sidx < di for (n, ci, di) in deaths):
+                                continue
+                            if ep["cv"][v].get("on") != ec["cv"][v].get("on") and v not in slept:
+                                slept.add(v)
+                                res["viol"].append(("colvar_inactive:control_body:" + res["removal"] if ep["cv"][v].get("on") == 0 else "control:colvar_active_flag:" + res["removal"],
+                                                    "program [%s] vs control [%s]: at step %s variable %s has active flag %s vs %s; reported value %s, "
+                                                    "value in the control %s" % (prog_str(prog), prog_str(ctrl), ep.get("it"), v, ep["cv"][v].get("on"),
+                                                                                 ec["cv"][v].get("on"), ep["cv"][v].get("x"), ec["cv"][v].get("x")), files_c))
+                perr = [e.get("it") for e in [P["sync"]] + P["further"] if e.get("rc") or e.get("err")]
+                cerr = [e.get("it") for e in [C["sync"]] + C["further"] if e.get("rc") or e.get("err")]
+                if perr != cerr:
+                    res["viol"].append(("control:step_error:" + res["removal"],
+                                        "program [%s] vs control [%s]: steps reporting an error %s vs %s: %s" % (prog_str(prog), prog_str(ctrl), perr, cerr,
+                                                                                          [e.get("errs") for e in [P["sync"]] + P["further"] if e.get("errs")][:1]), files_c))
+                if slept or perr != cerr:
+                    # root cause first: once a survivor was switched off (or steps abort) every later value is stale
+                    bump("identity_oracles_skipped_after_deactivation_or_step_error")
+                    res["nsurv"] = len(survivors_v) + len(survivors_b)
+                    return res
+                tainted_c = set(tainted)
                 order_p = [a for a in P["atomids"] if a in set(C["atomids"])]
                 slot_changed = order_p != C["atomids"] or len(P["atomids"]) != len(C["atomids"])
                 if slot_changed:
                     bump("atom_slot_layout_differs_from_control")
                 if P["cfg"] != C["cfg"]:
                     res["viol"].append(("control:getconfig:" + res["removal"], "getconfig texts differ between program and control", files_c))
-                for cls, text, rel in compare_tail(P, C, preP, preC):
+                restrict = None
+                if tainted_c:
+                    restrict = dict(vars_all=set(survivors_v), vars_x=set(survivors_v) - tainted_c,
+                                    biases=set(b for b in survivors_b if not any(v in tainted_c for v in (bias_vars(b) or []))), full=False)
+                    bump("control_comparisons_restricted")
+                for cls, text, rel in compare_tail(P, C, preP, preC, restrict=restrict, include_sync=True):
                     if slot_changed and rel <= 1e-13 and cls not in ("nact", "traj_label", "object_lists", "colvar_inactive"):
                         res["tol_used"] += 1
                         continue
@@ -1078,8 +1166,9 @@ def run_program(job):
             for b in survivors_b:
                 if b not in clean_b:
                     dirty_v.update(bias_vars(b) or [])
-            restrict = dict(vars_all=set(survivors_v) - set(ext_v), vars_x=set(survivors_v) - dirty_v, biases=clean_b, full=full)
-            for cls, text, rel in compare_tail(P, F, preP, preF, restrict=restrict):
+            restrict = dict(vars_all=set(survivors_v) - set(ext_v), vars_x=set(survivors_v) - dirty_v, biases=clean_b, full=full,
+                            drop_ft=(tfmode == "prev" and not full))
+            for cls, text, rel in compare_tail(P, F, preP, preF, restrict=restrict, include_sync=False):
                 res["viol"].append(("%s:fresh:%s" % (cls, res["removal"]) if cls == "colvar_inactive" else "fresh:%s:%s" % (cls, res["removal"]),
                                     "program [%s] vs fresh process with its survivors %s / %s: %s" % (prog_str(prog), survivors_v, survivors_b, text), files_f))
             bump("fresh_comparisons")
@@ -1139,11 +1228,10 @@ def run(tier, replay):
         except Exception as ex:  # harness failure of one case is inconclusive, never silent
             import traceback
             return dict(idx=job["idx"], prog=prog_str(job["prog"]), viol=[], refdiff=[], inconc=["harness exception: %s" % traceback.format_exc()[-400:]],
-                        ndeps=0, objects=0, features=0, changed=False, counters={}, kinds=set(), wd=job["wd"], tol_used=0, removal="?")
+                        ndeps=0, objects=0, features=0, changed=False, counters={}, kinds=set(), wd=job["wd"], tol_used=0, removal="?", pinned={})
 
     results = common.pmap(work, jobs)
     ndeps = 0
-    refdiff_is_violation = True
     for job, res in zip(jobs, results):
         c.count()
         c.bump("programs_" + job["kind"])
@@ -1163,13 +1251,9 @@ def run(tier, replay):
             c.inconc(text)
         for key, text, files in res["viol"]:
             c.violation(key, text, files)
-        seen = set()
-        for cls, text, files in res["refdiff"]:
-            c.bump("refdiff_entries")
-            c.note_set("refdiff_classes", cls)
-            if refdiff_is_violation and cls not in seen:
-                seen.add(cls)
-                c.violation("refcount:" + cls, text, files)
+        for cls, n in sorted(res.get("pinned", {}).items()):
+            c.bump("refcount_above_dependents_entries", n)
+            c.note_set("refcount_above_dependents_classes", cls)
         if job["kind"] == "random" and res["changed"]:
             c.sample({"program": res["prog"], "tfmode": job["tfmode"], "deps_reports": res["ndeps"], "survivors": res.get("nsurv")}, cap=4)
         shutil.rmtree(res["wd"], ignore_errors=True)
